@@ -26,6 +26,12 @@ def classify(chk, s, r, an, findings):
         reached = any(isinstance(e, tuple) and e[0] in ("EAcc", "EStart") and e[1] == j for evs in r["impl"] for e in evs)
         if ck == "CInbox" and not reached:
             return "ok", "never reached the factory (message still in its inbox when it exited)"
+        started = any(isinstance(e, tuple) and e[0] == "EStart" and e[1] == j for evs in r["impl"] for e in evs)
+        stopping = any(op[0] in ("stop", "drain") for op in s["ops"][:opi + 1])
+        if cause is None and not started and stopping and s["ops"][opi][0] not in ("k", "f", "p") and "F4" in findings:
+            # the model has no drop for this job (its history diverged from the implementation's, reported separately):
+            # fall back to the signature read off the implementation's log
+            ck, cause = "CWorkerQueue", ("CWorkerQueue", "?")
         if ck == "CWorkerQueue" and "F4" in findings:
             return "known", ("F4", "jobs waiting in a per-worker queue vanish when the factory stops "
                                    "(not handled, not discarded(Shutdown), not returned); e.g. corpus/C13/f4_stop_drops_worker_queue.scn")
@@ -45,7 +51,9 @@ def run(chk):
     quick = chk.tier == "quick"
     ok_proofs = chk.proofs()
     factor = 1 if ok_proofs else 5
-    build = cargo_build(["eng_factory"])
+    # RV_FACTORY_BIN_DIR: use an eng_factory binary built elsewhere (mutation experiments against a scratch worktree)
+    alt = os.environ.get("RV_FACTORY_BIN_DIR")
+    build = {"ok": True, "dir": alt} if alt else cargo_build(["eng_factory"])
     if not build["ok"]:
         ok, log = repo_builds_without_hooks()
         if not ok:
